@@ -85,7 +85,9 @@ func c11Judge(files map[string]string, res *native.Result) (string, c11Stats, er
 	for k := range aliases {
 		keys = append(keys, k)
 	}
-	sort.Slice(keys, func(i, j int) bool { return keys[i][0] < keys[j][0] || (keys[i][0] == keys[j][0] && keys[i][1] < keys[j][1]) })
+	sort.Slice(keys, func(i, j int) bool {
+		return keys[i][0] < keys[j][0] || (keys[i][0] == keys[j][0] && keys[i][1] < keys[j][1])
+	})
 	for _, k := range keys {
 		as, bs := args[k[0]], args[k[1]]
 		if len(as) == 0 || len(bs) == 0 {
@@ -147,7 +149,7 @@ func TestC11(t *testing.T) {
 	if env.Thorough() {
 		nv = 20
 	}
-	tp := &twoPass{id: "C11", salt: 11, checks: env.Pick(700, 20000), rec: rec,
+	tp := &twoPass{id: "C11", salt: 11, checks: env.Pick(700, 7000), rec: rec,
 		gen: func(t *rapid.T) *flowCase { return genFlowCase(t, gogen.PointerProfile(off), nv) },
 		judge: func(rt *rapid.T, c *flowCase, res *native.Result) {
 			msg, st, err := c11Judge(c.files(), res)
